@@ -95,7 +95,12 @@ static bool gars_decode(const std::string& s, long long& ix, long long& iy, int&
 }
 // corner/centre: value = (2*i + c) / (2*N/360) - 180 ; for GARS 2*NX/360 in {4,8,24}: division may round -> use one division, as any
 // correctly-rounded evaluation of the exact rational must (the rational has a unique nearest double)
-static double rat_to_double(long long num, long long den) { return (double)((__float128)num / (__float128)den); }
+static bool g_rat_exact = true;      // did the last ref_point produce only exactly representable coordinates?
+static double rat_to_double(long long num, long long den) {
+  double r = (double)((__float128)num / (__float128)den);
+  if ((__float128)r * (__float128)den != (__float128)num) g_rat_exact = false;
+  return r;
+}
 
 // ---- Georef
 static void georef_dims(int p, long long& NX, long long& NY) {
@@ -237,7 +242,7 @@ static void ref_cell(int id, double a, double b, int p, long long& ix, long long
 }
 // exact rational centre/corner of a cell rounded once to double
 static void ref_point(int id, long long ix, long long iy, int p, bool center, double& a, double& b) {
-  int c = center ? 1 : 0;
+  int c = center ? 1 : 0; g_rat_exact = true;
   if (id == 0) { gh_cell(ix, iy, p, center, a, b); return; }
   if (id == 3) {
     // (2*i + c) * unit / 2, unit = 10^(5-p) m
@@ -277,11 +282,20 @@ static void check_code(Ctx& ctx, int id, long long ix, long long iy, int p, bool
   for (int c = 0; c < 2; ++c) {
     Rev r = librev(id, code, c);
     double ea, eb; ref_point(id, ix, iy, p, c, ea, eb);
+    const bool corner_exact = g_rat_exact;
     if (r.outcome != 0) { ctx.fail(code, std::string("valid code rejected: ") + r.what, F("valid-rejected")); return; }
     if (r.prec != p) ctx.fail(code, "decoded precision " + fmti(r.prec) + " != " + fmti(p), F("decode-prec"));
     if (!close_enough(r.lat, ea, scale) || !close_enough(r.lon, eb, scale))
       ctx.fail(code + (c ? "/centre" : "/sw"), "decoded point (" + fx(r.lat) + "," + fx(r.lon) + ") != cell point (" + fx(ea) + "," + fx(eb) + ")", F("decode-point"));
     ctx.worst(std::string(S.name) + ".decode_err_ulp_of_scale", std::max(std::fabs(r.lat - ea), std::fabs(r.lon - eb)) / (std::numeric_limits<double>::epsilon() * scale), code);
+    if (c == 0) {
+      // re-encoding the decoded south-west corner reproduces the code (cells are closed on their S/W edges)
+      Fwd f = libfwd(id, r.lat, r.lon, p);
+      if (f.outcome != 0 || f.s != code) {
+        mc::Fields g = F("reencode-sw"); g.push_back({"corner_representable", corner_exact ? "yes" : "no"});
+        ctx.fail(code + "/sw-reencode", "Forward(decoded SW corner (" + fx(r.lat) + "," + fx(r.lon) + ")) = '" + printable(f.s) + "' want '" + code + "'", g);
+      }
+    }
     if (c == 1) {
       // re-encode the decoded centre at every precision <= p : prefix property + reproduction
       for (int q = S.pmin; q <= p; ++q) {
